@@ -306,7 +306,11 @@ def full_cell(P, A):
     cont_snaps = [B.snap(c) for c in cont_children]
     before_keyed = keyed(level, cont)
     before = keys(level, cont)
-    msg = build_message(P, ids, pl.tgt, pl.srcs, pl.new, addr=story_ref)
+    B.Ctx.mid = P.get('mid')          # e.g. 'n/a' or '' : a messageID that is not a number (C05 speaks of all messages)
+    try:
+        msg = build_message(P, ids, pl.tgt, pl.srcs, pl.new, addr=story_ref)
+    finally:
+        B.Ctx.mid = None
     out = B.merge(ro, msg)
     B.hit()
     rc2 = B.rc_of(ro)
